@@ -187,6 +187,8 @@ func sweepContents() []content {
 		{"%s", "percent"}, {"%d%%", "percent"}, {"\\n", "backslash"}, {"\\t", "backslash"}, {"a\\", "backslash"}, {"\\\\", "backslash"}, {"\\$x", "backslash"},
 		{"a\"b\"c", "quote"}, {"\"\"", "quote"}, {"'a'", "single-quote"}, {"a\nb\nc", "newline-embedded"}, {"a\n\nb", "newline-embedded"}, {"a\n", "newline-trailing"},
 		{"a\tb\tc", "tab-inner"}, {"#x", "comment-start"}, {"x#y", "punct"}, {"=", "punct"}, {"a=b", "punct"}, {"!!", "bang"}, {"!x", "bang"},
+		{"gcc -o demo", "test-expression"}, {"= -z", "test-expression"}, {"a -o b", "test-expression"}, {"! x", "test-expression"}, {"( x )", "test-expression"},
+		{"-f in.txt", "test-expression"}, {"x = x", "test-expression"}, {"-z", "test-expression"}, {"a -a b", "test-expression"}, {"1 -eq 1", "test-expression"},
 		{"abc", "plain"}, {"Hello World", "blank-inner"}, {"x", "plain"}, {"0", "plain"}, {"1", "plain"}, {"-1", "dash-leading"}, {"007", "plain"},
 	} {
 		out = append(out, e)
@@ -216,7 +218,7 @@ func tsLit(s string) string {
 	return b.String()
 }
 
-var opaquePaths = []string{"print", "assign", "concat", "compare", "pass", "return", "slice-store", "slice-literal", "range", "subscript", "len", "write"}
+var opaquePaths = []string{"print", "assign", "concat", "compare", "compare-empty", "pass", "return", "slice-store", "slice-literal", "range", "subscript", "len", "write"}
 var opaqueOrigins = []string{"literal", "file", "stdin", "command"}
 
 // opaqueProgram builds the program for one (path, origin, content, inFunc) and what it must print / leave behind.
@@ -263,6 +265,16 @@ func opaqueProgram(path, origin string, s string, inFunc bool) (src string, stdi
 	case "compare":
 		lines = append(lines, fmt.Sprintf("w := %s", v), fmt.Sprintf(`print(%s == w, %s != w, %s == w + "x", "x" + %s != "x" + w)`, v, v, v, v))
 		out = "1 0 0 0\n"
+	case "compare-empty":
+		// against the empty literal, as a switch tag and as a loop condition that consumes the value byte by byte
+		needVar()
+		lines = append(lines, `print(v == "", v != "", "" == v)`, "switch v {", `case "":`, "\tprint(\"blank\")", "default:", "\tprint(\"text\")", "}",
+			"k := 0", "t := v", `for t != "" {`, "\tk++", "\tt = t[1:]", "}", "print(k)")
+		if s == "" {
+			out = "1 0 1\nblank\n0\n"
+		} else {
+			out = fmt.Sprintf("0 1 0\ntext\n%d\n", len(s))
+		}
 	case "pass":
 		funcs = "func show(p string, k int) {\n\tprint(p)\n\tprint(k)\n}\n"
 		lines = append(lines, fmt.Sprintf("show(%s, 7)", v))
